@@ -399,6 +399,7 @@ func c15(c *Ctx) {
 	defer c15intervalLoops(c)
 	defer c.searchResultKind("R15.6")
 	defer c.searchReadsByIDAlone("R15.7")
+	defer c.searchAnswersComeFromSearch("R15.8")
 	P, R := c.P, c.R
 	R.Explain("R15.1", "exhaustiveness and agreement of the key tables: the type switch of buildSearchOp has a case for every concrete type implementing command.SearchKey; every case calls the builder for that key; handleSearchKey (and the sequence-set / list / NOT / OR productions) allocates every such type, and each keyword constant that guards an allocation is the lower-cased name of the type it allocates.")
 	R.Explain("R15.2", "declared needs: the searchData fields a key's closure reads are populated — buildSearchData fills a field only under a needs* flag, so the options given to newBuildSearchOpResult must set the flag of every field the closure reads (derived from buildSearchData and the options' apply methods, not listed by hand); an option that enables a field computed from another (header from literal) also enables that one; composite builders merge the needs of every child they evaluate.")
